@@ -150,6 +150,27 @@ func reprepareStorm(c *Ctx, idx int) {
 	bg.Wait()
 	atomic.StoreInt32(&active, 0)
 	drain(r, bed, scripts, clients, label, scenario, mark)
+	// C08's rule on the same storm: every statement executed here was prepared through the proxy and is in its prepared
+	// cache, so whatever happens to the re-prepares no client may be answered UNPREPARED
+	unprep := 0
+	var firstUnprep string
+	for i, cl := range clients {
+		for _, f := range cl.Frames() {
+			if f.OpCode != primitive.OpCodeError {
+				continue
+			}
+			if ri := DecodeReply([]string{"", "lz4", "snappy"}[i%3], f); ri.ErrCode == primitive.ErrorCodeUnprepared {
+				unprep++
+				if firstUnprep == "" {
+					firstUnprep = fmt.Sprintf("client %d stream %d: %q", i, f.Stream, ri.ErrMsg)
+				}
+			}
+		}
+	}
+	r.Obs("reprepare_storm_unprepared_answers_at_clients", unprep)
+	if unprep > 0 && c.Prop == "C08" {
+		r.Violate(mon.Violation{Signature: "C08/unprepared-reached-client/reprepare-storm", Detail: fmt.Sprintf("hosts forget the prepared statements again and again while %d clients pipeline EXECUTEs of them and re-PREPAREs are answered, refused, dropped or swallowed: %d requests were answered UNPREPARED although the statement is in the proxy's prepared cache (first: %s)", len(clients), unprep, firstUnprep), Scenario: scenario})
+	}
 	smu.Lock()
 	for k, v := range counts {
 		r.Obs("reprepare_storm_reprepare_outcome:"+k, v)
